@@ -124,6 +124,14 @@ Pre ==
        /\ s.f.OrigTtl = rrset[1].ttl
        /\ s.f.Labels = Len(rrset[1].name) - (IF rrset[1].name[1] = Star THEN 1 ELSE 0)
        /\ CanonOwner(rrset[1].name, s.f.Labels) = LowerName(rrset[1].name)       \* no substitution for the signed owner itself
+    \* ... whatever the RRSIG value held before (an earlier RRset's owner, class, type, Labels; the largest values): only a
+    \* non-zero Original TTL of the caller's stays
+    /\ \A lab \in {Len(rrset[1].name) + 2, 255}, tc \in {2}, ot \in {Zero4, <<0, 0, 0, 77>>} :
+         LET fresh == SignFills([Sig0 EXCEPT !.f.Labels = 0, !.f.TypeCovered = 0, !.f.OrigTtl = ot], rrset)
+             used  == SignFills([Sig0 EXCEPT !.owner = << <<120>>, <<121>> >> \o rrset[1].name, !.class = 3,
+                                             !.f.Labels = lab, !.f.TypeCovered = tc, !.f.OrigTtl = ot], rrset)
+         IN SameButSignature(used, fresh) /\ PreChecks(used, Key0, rrset)
+            /\ used.f.OrigTtl = (IF ot = Zero4 THEN rrset[1].ttl ELSE ot)
 
 \* Key tags (RFC 4034 appendix B: ONE fold of the carry), committed vectors:
 \*  1 the DNSKEY of RFC 4034 s.5.4, "key id = 60485";
